@@ -1592,7 +1592,7 @@ fn oracle_c20(fields: &[&str]) -> String {
     let nfiles: usize = fields[2].parse().unwrap_or(0);
     let mut ctx = Plain::new();
     let op = ctx.op(&op_def);
-    let unreadable = (0..nfiles).any(|i| fields[3 + i] == "UNREADABLE");
+    let unreadable = (0..nfiles).any(|i| fields[3 + i] == "UNREADABLE" || fields[3 + i] == "DIRECTORY" || fields[3 + i].starts_with("BROKEN:"));
     // invalid operations and unreadable files: non-zero status
     if op.is_err() || unreadable {
         return if rc != 0 { "oracle pass".to_string() } else { format!("oracle FAIL exit status 0 although {}", if op.is_err() { "the operation is invalid" } else { "a file is unreadable" }) };
